@@ -379,11 +379,14 @@ def run_ds(cfg, choose, pu_lines=False):
         len_ok = True
         try:
             src = lazy_dataset.new(list(range(1, cfg['n'] + 1)))
+            # buf_api: what is handed to the API - e.g. 1.5 * workers, a float:
+            # "the buffer is full" must then mean ceil(buffer_size) = cfg['buf']
+            bapi = cfg.get('buf_api', cfg['buf'])
             if cfg['api'] == 'prefetch':
-                ds = src.map(fn).prefetch(cfg['w'], cfg['buf'],
+                ds = src.map(fn).prefetch(cfg['w'], bapi,
                                           catch_filter_exception=True if cfg['cfe'] else None)
             else:
-                ds = src.map(fn, num_workers=cfg['w'], buffer_size=cfg['buf'])
+                ds = src.map(fn, num_workers=cfg['w'], buffer_size=bapi)
             # the same pipeline reached through a copy of it: copy(), a frozen
             # copy, the profiling wrapper (which copies the pipeline it wraps)
             via = cfg.get('via', 'direct')
@@ -442,9 +445,12 @@ def ds_big_configs(rng, count):
         buf = rng.randint(w, 3)
         n = rng.randint(buf + 4, 14)
         stop = rng.choice([('exhaust', 0), ('close', rng.randint(1, n - 1))])
-        out.append({'api': api, 'n': n, 'buf': buf, 'w': w, 'fn_fail': [], 'fail_kind': 'filter',
-                    'cfe': 0, 'stop': stop[0], 'stop_k': stop[1],
-                    'via': rng.choice(['direct', 'copy', 'frozen', 'profile'])})
+        c = {'api': api, 'n': n, 'buf': buf, 'w': w, 'fn_fail': [], 'fail_kind': 'filter',
+             'cfe': 0, 'stop': stop[0], 'stop_k': stop[1],
+             'via': rng.choice(['direct', 'copy', 'frozen', 'profile'])}
+        if rng.random() < 0.25 and buf - 0.5 >= w:      # a non-integral buffer size
+            c['buf_api'] = buf - 0.5
+        out.append(c)
     return out
 
 
